@@ -15,13 +15,47 @@ structure VolOk (b : Buf) (v : List Entry) : Prop where
   sub : ∀ e ∈ v, e ∈ b.mem
   dur : ∀ e ∈ b.mem, e.index ≤ b.durable → e ∈ v
 
+/-- index of the purge boundary an image carries -/
+def Img.bndI (g : Img) : Nat := match g.boundary with | some p => p.1 | none => 0
+
+/-- a store image `new` can start from: a gap-free run right above its own purge boundary, terms ≥ 1 -/
+structure ImgOk (g : Img) : Prop where
+  contig : contigFrom (firstIdx g.ents) g.ents = true
+  anchor : g.ents ≠ [] → firstIdx g.ents = g.bndI + 1
+  pos : ∀ e ∈ g.ents, 0 < e.term
+
+/-- the store's purge boundary is the log's -/
+def BndOk (b : Buf) (g : Img) : Prop :=
+  match g.boundary with
+  | some p => p.1 = b.purgedI ∧ p.2 = b.purgedT
+  | none => b.purgedI = 0 ∧ b.purgedT = 0
+
+theorem BndOk.bndI {b : Buf} {g : Img} (h : BndOk b g) : g.bndI = b.purgedI := by
+  unfold BndOk at h; unfold Img.bndI
+  cases hb : g.boundary with
+  | none => rw [hb] at h; simp [h.1]
+  | some p => rw [hb] at h; simp [h.1]
+
+theorem BndOk.of_eq {b b' : Buf} {g g' : Img} (h : BndOk b g) (hb : b'.purgedI = b.purgedI ∧ b'.purgedT = b.purgedT)
+    (hg : g'.boundary = g.boundary) : BndOk b' g' := by
+  unfold BndOk at h ⊢
+  rw [hg, hb.1, hb.2]; exact h
+
+/-- the whole log with the log's boundary is a good image -/
+theorem imgOk_of_inv {b : Buf} (h : b.Inv) {g : Img} (hb : BndOk b g) (he : g.ents = b.mem) : ImgOk g :=
+  { contig := by rw [he]; exact h.contig,
+    anchor := by rw [he, hb.bndI]; exact h.anchor,
+    pos := by rw [he]; exact h.pos }
+
 /-- what holds between operations (no command queued) over the reference store; `hist` = logs seen so far -/
 structure StoreOk (s : Sys) (hist : List (List Entry)) : Prop where
   file : s.file = none
+  kb : s.keepBoundary = true
   queue : s.queue = []
-  timer : s.timerDue = false
   alive : s.alive = true
   inv : s.buf.Inv
+  bnd : BndOk s.buf s.store.v
+  dImg : ImgOk s.store.d
   vol : VolOk s.buf s.store.v.ents
   /-- nothing waits for the notify arm ⇒ everything in memory has been written -/
   full : s.notify = false → ∀ e ∈ s.buf.mem, e ∈ s.store.v.ents
@@ -191,8 +225,11 @@ namespace DEngine.BufLog
 
 structure Core (s : Sys) (hist : List (List Entry)) : Prop where
   file : s.file = none
+  kb : s.keepBoundary = true
   alive : s.alive = true
   inv : s.buf.Inv
+  bnd : BndOk s.buf s.store.v
+  dImg : ImgOk s.store.d
   vol : VolOk s.buf s.store.v.ents
   dTop : s.buf.durable ≤ s.buf.top
   pTop : s.pendingMax ≤ s.buf.top
@@ -202,7 +239,7 @@ structure Core (s : Sys) (hist : List (List Entry)) : Prop where
   histOk : ∀ h ∈ hist, ∃ k, contigFrom (k + 1) h = true
 
 theorem StoreOk.core {s : Sys} {hist : List (List Entry)} (h : StoreOk s hist) : Core s hist :=
-  { file := h.file, alive := h.alive, inv := h.inv, vol := h.vol, dTop := h.dTop, pTop := h.pTop, dHist := h.dHist,
+  { file := h.file, kb := h.kb, alive := h.alive, inv := h.inv, bnd := h.bnd, dImg := h.dImg, vol := h.vol, dTop := h.dTop, pTop := h.pTop, dHist := h.dHist,
     dDur := h.dDur, memHist := h.memHist, histOk := h.histOk }
 
 theorem contig_hist_of_inv {b : Buf} (h : b.Inv) : ∃ k, contigFrom (k + 1) b.mem = true := by
@@ -303,7 +340,9 @@ theorem Core.pf {s : Sys} {hist : List (List Entry)} (h : Core s hist) :
   by_cases hP0 : 0 < P'
   · rw [if_pos hP0]
     refine ⟨?_, hfull, rfl, ⟨_, s.buf.nextId, rfl⟩, rfl, rfl, rfl, rfl⟩
-    refine { file := h.file, alive := h.alive, inv := (SameBuf.inv ⟨_, s.buf.nextId, rfl⟩ h.inv), vol := ?_, dTop := ?_,
+    refine { file := h.file, kb := h.kb, bnd := h.bnd.of_eq ⟨rfl, rfl⟩ rfl,
+             dImg := imgOk_of_inv (b := s.buf) h.inv (g := { s.store.v with ents := v' }) (h.bnd.of_eq ⟨rfl, rfl⟩ rfl) hveq,
+             alive := h.alive, inv := (SameBuf.inv ⟨_, s.buf.nextId, rfl⟩ h.inv), vol := ?_, dTop := ?_,
              pTop := Nat.zero_le _, dHist := ?_, dDur := ?_, memHist := h.memHist, histOk := h.histOk }
     · exact ⟨hvol'.sorted, hvol'.sub, fun e he _ => hfull e he⟩
     · have := h.dTop
@@ -316,7 +355,7 @@ theorem Core.pf {s : Sys} {hist : List (List Entry)} (h : Core s hist) :
   · rw [if_neg hP0]
     have hP0' : P' = 0 := by omega
     refine ⟨?_, hfull, hP0', SameBuf.refl _, rfl, rfl, rfl, rfl⟩
-    exact { file := h.file, alive := h.alive, inv := h.inv, vol := hvol', dTop := h.dTop, pTop := by rw [hP0']; exact Nat.zero_le _,
+    exact { file := h.file, kb := h.kb, bnd := h.bnd, dImg := h.dImg, alive := h.alive, inv := h.inv, vol := hvol', dTop := h.dTop, pTop := by rw [hP0']; exact Nat.zero_le _,
             dHist := h.dHist, dDur := h.dDur, memHist := h.memHist, histOk := h.histOk }
 
 end DEngine.BufLog
@@ -344,72 +383,97 @@ theorem ioArm_cmd_flush (s : Sys) (hq : s.queue = [.flush]) : s.ioArm .cmd = ({ 
   simp only [Sys.ioArm, hq, hq1, Sys.drain, Sys.shutdownTail, Bool.false_eq_true, if_false, Sys.pf]
   rw [Sys.queue_eta _ hq1]
 
-theorem ioRunN_idle (n : Nat) (s : Sys) (hq : s.queue = []) (hn : s.notify = false) (ht : s.timerDue = false) :
-    Sys.ioRunN n s defaultPrio = s := by
-  cases n with
-  | zero => rfl
-  | succ n => simp [Sys.ioRunN, Sys.pickArm, defaultPrio, Sys.armEnabled, hq, hn, ht]
+/-- every arm occurs in the priority list (the case language only produces permutations) -/
+def Sched.valid (sch : Sched) : Bool :=
+  sch.prio.contains .cmd && sch.prio.contains .notify && sch.prio.contains .timer
 
-/-- the rest of an IO run once the queue is empty: the notify arm if a notification is pending, then the timer arm
-    if a tick is due; the result satisfies the invariant between operations -/
-theorem finish_ok {s : Sys} {hist : List (List Entry)} (n : Nat) (hc : Core s hist) (hq : s.queue = [])
-    (hfull : s.notify = false → s.timerDue = false → ∀ e ∈ s.buf.mem, e ∈ s.store.v.ents) :
-    StoreOk (Sys.ioRunN (n + 2) s defaultPrio) hist ∧ SameBuf s.buf (Sys.ioRunN (n + 2) s defaultPrio).buf := by
-  -- a state with Core, empty queue, no flags and everything written is fine
-  have done : ∀ (t : Sys), Core t hist → t.queue = [] → t.notify = false → t.timerDue = false →
-      (∀ e ∈ t.buf.mem, e ∈ t.store.v.ents) → StoreOk t hist := by
-    intro t hct hqt hnt htt hft
-    exact { file := hct.file, queue := hqt, timer := htt, alive := hct.alive, inv := hct.inv, vol := hct.vol,
+theorem pickArm_some_enabled {s : Sys} : ∀ {prio : List Arm} {a : Arm}, s.pickArm prio = some a → s.armEnabled a = true := by
+  intro prio
+  induction prio with
+  | nil => intro a h; simp [Sys.pickArm] at h
+  | cons x xs ih =>
+    intro a h
+    simp only [Sys.pickArm] at h
+    by_cases hx : s.armEnabled x = true
+    · simp only [hx, if_true, Option.some.injEq] at h; rw [← h]; exact hx
+    · simp only [hx, Bool.false_eq_true, if_false] at h; exact ih h
+
+theorem pickArm_none_disabled {s : Sys} : ∀ {prio : List Arm}, s.pickArm prio = none → ∀ a ∈ prio, s.armEnabled a = false := by
+  intro prio
+  induction prio with
+  | nil => intro _ a ha; cases ha
+  | cons x xs ih =>
+    intro h a ha
+    simp only [Sys.pickArm] at h
+    by_cases hx : s.armEnabled x = true
+    · simp [hx] at h
+    · have hx' : s.armEnabled x = false := by simpa using hx
+      simp only [hx', Bool.false_eq_true, if_false] at h
+      rcases List.mem_cons.mp ha with rfl | ha
+      · exact hx'
+      · exact ih h a ha
+
+/-- the rest of an IO run once the queue is empty: notify and timer arms in whatever order, each a persist + fsync;
+    the result satisfies the invariant between operations -/
+theorem finish_ok {hist : List (List Entry)} {prio : List Arm}
+    (hv : prio.contains .notify = true ∧ prio.contains .timer = true) :
+    ∀ (n : Nat) (s : Sys), Core s hist → s.queue = [] →
+      (if s.notify then 1 else 0) + (if s.timerDue then 1 else 0) ≤ n →
+      (s.notify = false → s.timerDue = false → ∀ e ∈ s.buf.mem, e ∈ s.store.v.ents) →
+      StoreOk (Sys.ioRunN n s prio) hist ∧ SameBuf s.buf (Sys.ioRunN n s prio).buf := by
+  have done : ∀ (t : Sys), Core t hist → t.queue = [] → (∀ e ∈ t.buf.mem, e ∈ t.store.v.ents) → StoreOk t hist := by
+    intro t hct hqt hft
+    exact { file := hct.file, kb := hct.kb, bnd := hct.bnd, dImg := hct.dImg, queue := hqt, alive := hct.alive, inv := hct.inv, vol := hct.vol,
             full := fun _ => hft, closed := fun e he _ _ _ => hft e he, dTop := hct.dTop, pTop := hct.pTop,
             dHist := hct.dHist, dDur := hct.dDur, memHist := hct.memHist, histOk := hct.histOk }
-  by_cases hn : s.notify = true
-  · -- notify arm
-    have hpick : s.pickArm defaultPrio = some .notify := by
-      simp [Sys.pickArm, defaultPrio, Sys.armEnabled, hq, hn, hc.alive]
-    have hstep : Sys.ioRunN (n + 2) s defaultPrio = Sys.ioRunN (n + 1) (s.ioArm .notify) defaultPrio := by
-      simp [Sys.ioRunN, hpick]
-    rw [hstep, ioArm_notify_nil s hq]
-    have hc1 : Core { s with notify := false } hist :=
-      { file := hc.file, alive := hc.alive, inv := hc.inv, vol := hc.vol, dTop := hc.dTop, pTop := hc.pTop,
-        dHist := hc.dHist, dDur := hc.dDur, memHist := hc.memHist, histOk := hc.histOk }
-    obtain ⟨hc2, hf2, _, hsb2, _, hq2, hn2, ht2⟩ := hc1.pf
-    have hq2' : ({ s with notify := false }).pf.queue = [] := by rw [hq2]; exact hq
-    have hn2' : ({ s with notify := false }).pf.notify = false := by rw [hn2]
-    by_cases ht : s.timerDue = true
-    · have ht2' : ({ s with notify := false }).pf.timerDue = true := by rw [ht2]; exact ht
-      have hpick2 : ({ s with notify := false }).pf.pickArm defaultPrio = some .timer := by
-        simp [Sys.pickArm, defaultPrio, Sys.armEnabled, hq2', hn2', ht2', hc2.alive]
-      have hstep2 : Sys.ioRunN (n + 1) ({ s with notify := false }).pf defaultPrio =
-          Sys.ioRunN n (({ s with notify := false }).pf.ioArm .timer) defaultPrio := by
-        simp [Sys.ioRunN, hpick2]
-      rw [hstep2, ioArm_timer]
-      have hc3 : Core { ({ s with notify := false }).pf with timerDue := false } hist :=
-        { file := hc2.file, alive := hc2.alive, inv := hc2.inv, vol := hc2.vol, dTop := hc2.dTop, pTop := hc2.pTop,
-          dHist := hc2.dHist, dDur := hc2.dDur, memHist := hc2.memHist, histOk := hc2.histOk }
-      obtain ⟨hc4, hf4, _, hsb4, _, hq4, hn4, ht4⟩ := hc3.pf
-      rw [ioRunN_idle n _ (by rw [hq4]; exact hq2') (by rw [hn4]; exact hn2') (by rw [ht4])]
-      exact ⟨done _ hc4 (by rw [hq4]; exact hq2') (by rw [hn4]; exact hn2') (by rw [ht4]) hf4,
-        hsb2.trans hsb4⟩
-    · have ht' : s.timerDue = false := by simpa using ht
-      have ht2' : ({ s with notify := false }).pf.timerDue = false := by rw [ht2]; exact ht'
-      rw [ioRunN_idle (n + 1) _ hq2' hn2' ht2']
-      exact ⟨done _ hc2 hq2' hn2' ht2' hf2, hsb2⟩
-  · have hn' : s.notify = false := by simpa using hn
-    by_cases ht : s.timerDue = true
-    · have hpick : s.pickArm defaultPrio = some .timer := by
-        simp [Sys.pickArm, defaultPrio, Sys.armEnabled, hq, hn', ht, hc.alive]
-      have hstep : Sys.ioRunN (n + 2) s defaultPrio = Sys.ioRunN (n + 1) (s.ioArm .timer) defaultPrio := by
-        simp [Sys.ioRunN, hpick]
-      rw [hstep, ioArm_timer]
-      have hc1 : Core { s with timerDue := false } hist :=
-        { file := hc.file, alive := hc.alive, inv := hc.inv, vol := hc.vol, dTop := hc.dTop, pTop := hc.pTop,
-          dHist := hc.dHist, dDur := hc.dDur, memHist := hc.memHist, histOk := hc.histOk }
-      obtain ⟨hc2, hf2, _, hsb2, _, hq2, hn2, ht2⟩ := hc1.pf
-      rw [ioRunN_idle (n + 1) _ (by rw [hq2]; exact hq) (by rw [hn2]; exact hn') (by rw [ht2])]
-      exact ⟨done _ hc2 (by rw [hq2]; exact hq) (by rw [hn2]; exact hn') (by rw [ht2]) hf2, hsb2⟩
-    · have ht' : s.timerDue = false := by simpa using ht
-      rw [ioRunN_idle (n + 2) s hq hn' ht']
-      exact ⟨done s hc hq hn' ht' (hfull hn' ht'), SameBuf.refl _⟩
+  intro n
+  induction n with
+  | zero =>
+    intro s hc hq hcnt hfull
+    have hn : s.notify = false := by cases h : s.notify <;> simp [h] at hcnt ⊢
+    have ht : s.timerDue = false := by cases h : s.timerDue <;> simp [h, hn] at hcnt ⊢
+    exact ⟨done s hc hq (hfull hn ht), SameBuf.refl _⟩
+  | succ n ih =>
+    intro s hc hq hcnt hfull
+    simp only [Sys.ioRunN]
+    cases hp : s.pickArm prio with
+    | none =>
+      have hd := pickArm_none_disabled hp
+      have hn : s.notify = false := by
+        have := hd .notify (by simpa using hv.1)
+        simpa [Sys.armEnabled, hc.alive] using this
+      have ht : s.timerDue = false := by
+        have := hd .timer (by simpa using hv.2)
+        simpa [Sys.armEnabled, hc.alive] using this
+      exact ⟨done s hc hq (hfull hn ht), SameBuf.refl _⟩
+    | some a =>
+      have hen := pickArm_some_enabled hp
+      have hqf : ¬ (a ≠ .cmd ∧ s.queue ≠ []) := by intro h; exact h.2 hq
+      simp only [hqf, if_false]
+      cases a with
+      | cmd => simp [Sys.armEnabled, hq] at hen
+      | notify =>
+        have hnt : s.notify = true := by simpa [Sys.armEnabled, hc.alive] using hen
+        rw [ioArm_notify_nil s hq]
+        have hc1 : Core { s with notify := false } hist :=
+          { file := hc.file, kb := hc.kb, bnd := hc.bnd, dImg := hc.dImg, alive := hc.alive, inv := hc.inv, vol := hc.vol, dTop := hc.dTop, pTop := hc.pTop,
+            dHist := hc.dHist, dDur := hc.dDur, memHist := hc.memHist, histOk := hc.histOk }
+        obtain ⟨hc2, hf2, _, hsb2, _, hq2, hn2, ht2⟩ := hc1.pf
+        have := ih ({ s with notify := false }).pf hc2 (by rw [hq2]; exact hq)
+          (by rw [hn2, ht2]; simp only [hnt] at hcnt; simp; cases h : s.timerDue <;> simp [h] at hcnt ⊢ <;> omega)
+          (fun _ _ => hf2)
+        exact ⟨this.1, hsb2.trans this.2⟩
+      | timer =>
+        have htt : s.timerDue = true := by simpa [Sys.armEnabled, hc.alive] using hen
+        rw [ioArm_timer]
+        have hc1 : Core { s with timerDue := false } hist :=
+          { file := hc.file, kb := hc.kb, bnd := hc.bnd, dImg := hc.dImg, alive := hc.alive, inv := hc.inv, vol := hc.vol, dTop := hc.dTop, pTop := hc.pTop,
+            dHist := hc.dHist, dDur := hc.dDur, memHist := hc.memHist, histOk := hc.histOk }
+        obtain ⟨hc2, hf2, _, hsb2, _, hq2, hn2, ht2⟩ := hc1.pf
+        have := ih ({ s with timerDue := false }).pf hc2 (by rw [hq2]; exact hq)
+          (by rw [hn2, ht2]; simp only [htt] at hcnt; simp; cases h : s.notify <;> simp [h] at hcnt ⊢ <;> omega)
+          (fun _ _ => hf2)
+        exact ⟨this.1, hsb2.trans this.2⟩
 
 end DEngine.BufLog
 
@@ -419,7 +483,7 @@ namespace DEngine.BufLog
 
 theorem Core.mono {s : Sys} {hist : List (List Entry)} (h : Core s hist) (m : List Entry)
     (hm : ∃ k, contigFrom (k + 1) m = true) (hmem : s.buf.mem = m ∨ s.buf.mem ∈ hist) : Core s (m :: hist) :=
-  { file := h.file, alive := h.alive, inv := h.inv, vol := h.vol, dTop := h.dTop, pTop := h.pTop,
+  { file := h.file, kb := h.kb, bnd := h.bnd, dImg := h.dImg, alive := h.alive, inv := h.inv, vol := h.vol, dTop := h.dTop, pTop := h.pTop,
     dHist := List.mem_cons_of_mem _ h.dHist, dDur := h.dDur,
     memHist := by rcases hmem with hm' | hm'
                   · rw [hm']; simp
@@ -431,7 +495,7 @@ theorem Core.mono {s : Sys} {hist : List (List Entry)} (h : Core s hist) (m : Li
 
 theorem StoreOk.mono {s : Sys} {hist : List (List Entry)} (h : StoreOk s hist) (m : List Entry)
     (hm : ∃ k, contigFrom (k + 1) m = true) : StoreOk s (m :: hist) :=
-  { file := h.file, queue := h.queue, timer := h.timer, alive := h.alive, inv := h.inv, vol := h.vol, full := h.full,
+  { file := h.file, kb := h.kb, bnd := h.bnd, dImg := h.dImg, queue := h.queue, alive := h.alive, inv := h.inv, vol := h.vol, full := h.full,
     closed := h.closed, dTop := h.dTop, pTop := h.pTop, dHist := List.mem_cons_of_mem _ h.dHist, dDur := h.dDur,
     memHist := List.mem_cons_of_mem _ h.memHist,
     histOk := by intro x hx
@@ -442,7 +506,7 @@ theorem StoreOk.mono {s : Sys} {hist : List (List Entry)} (h : StoreOk s hist) (
 /-- changing only `next_id` (id allocation) changes nothing that matters here -/
 theorem StoreOk.withNextId {s : Sys} {hist : List (List Entry)} (h : StoreOk s hist) (n : Nat) :
     StoreOk { s with buf := { s.buf with nextId := n } } hist :=
-  { file := h.file, queue := h.queue, timer := h.timer, alive := h.alive,
+  { file := h.file, kb := h.kb, bnd := h.bnd, dImg := h.dImg, queue := h.queue, alive := h.alive,
     inv := SameBuf.inv ⟨s.buf.durable, n, rfl⟩ h.inv,
     vol := ⟨h.vol.sorted, h.vol.sub, h.vol.dur⟩, full := h.full, closed := h.closed, dTop := h.dTop, pTop := h.pTop,
     dHist := h.dHist, dDur := h.dDur, memHist := h.memHist, histOk := h.histOk }
@@ -490,7 +554,7 @@ theorem StoreOk.appendTail {s : Sys} {hist : List (List Entry)} (h : StoreOk s h
   have htop : s.buf.top ≤ (s.buf.insertToMemory tail).top := by
     unfold Buf.top; rw [hmem', hpi']; omega
   simp only [Sys.append, hne', Bool.false_eq_true, if_false]
-  refine { file := h.file, queue := h.queue, timer := h.timer, alive := h.alive, inv := hins.1, vol := ?_, full := ?_,
+  refine { file := h.file, kb := h.kb, bnd := h.bnd, dImg := h.dImg, queue := h.queue, alive := h.alive, inv := hins.1, vol := ?_, full := ?_,
            closed := ?_, dTop := ?_, pTop := ?_, dHist := List.mem_cons_of_mem _ h.dHist, dDur := ?_, memHist := by simp,
            histOk := ?_ }
   · refine ⟨h.vol.sorted, ?_, ?_⟩
@@ -552,7 +616,7 @@ theorem core_after_replace {s : Sys} {hist : List (List Entry)} (h : StoreOk s h
     (htne : tail ≠ []) (hd1 : s.buf.minIdx ≤ d) (hd2 : d ≤ s.buf.maxIdx) (hne : s.buf.mem ≠ [])
     (hc : contigFrom d tail = true) (hpos : termsPos tail = true) :
     let s2 := ({ s with buf := s.buf.replaceMem d tail, queue := [] } : Sys).handleCmd (.replace d tail)
-    Core s2 (s2.buf.mem :: hist) ∧ s2.queue = [] ∧ s2.notify = s.notify ∧ s2.timerDue = false ∧
+    Core s2 (s2.buf.mem :: hist) ∧ s2.queue = [] ∧ s2.notify = s.notify ∧
     (s.notify = false → ∀ e ∈ s2.buf.mem, e ∈ s2.store.v.ents) ∧ s2.buf = s.buf.replaceMem d tail := by
   have hrep := h.inv.replaceMem hd1 hd2 hne hc hpos
   have hmem' : (s.buf.replaceMem d tail).mem = s.buf.mem.filter (fun e => decide (e.index < d)) ++ tail := by
@@ -577,8 +641,10 @@ theorem core_after_replace {s : Sys} {hist : List (List Entry)} (h : StoreOk s h
       rw [hdur']; omega
     rw [this]
   simp only [Sys.stReplace, Img.replaceRange, h.file, Option.map_none, hbeq]
-  refine ⟨?_, by simp, by simp, by simp [h.timer], ?_, by simp⟩
-  · refine { file := by simp, alive := h.alive, inv := hrep.1, vol := ?_, dTop := ?_, pTop := ?_,
+  refine ⟨?_, by simp, by simp, ?_, by simp⟩
+  have hpt' : (s.buf.replaceMem d tail).purgedT = s.buf.purgedT := by
+    have := congrArg Plain.anchorT hrep.2; simpa [Buf.abs] using this
+  · refine { file := by simp, kb := h.kb, bnd := h.bnd.of_eq ⟨hpi', hpt'⟩ rfl, dImg := h.dImg, alive := h.alive, inv := hrep.1, vol := ?_, dTop := ?_, pTop := ?_,
              dHist := List.mem_cons_of_mem _ h.dHist, dDur := ?_, memHist := by simp, histOk := ?_ }
     · refine ⟨sorted_insertAll hvf, ?_, ?_⟩
       · intro e he
@@ -640,7 +706,7 @@ theorem purgeMem_durable (b : Buf) (ci ct : Nat) :
 theorem core_after_purge {s : Sys} {hist : List (List Entry)} (h : StoreOk s hist) {ci : Nat} (ct : Nat)
     (hci : s.buf.purgedI ≤ ci) :
     let s2 := ({ s with buf := s.buf.purgeMem ci ct, queue := [] } : Sys).handleCmd (.purge ci ct)
-    Core s2 (s2.buf.mem :: hist) ∧ s2.queue = [] ∧ s2.notify = s.notify ∧ s2.timerDue = false ∧
+    Core s2 (s2.buf.mem :: hist) ∧ s2.queue = [] ∧ s2.notify = s.notify ∧
     (s.notify = false → ∀ e ∈ s2.buf.mem, e ∈ s2.store.v.ents) ∧ s2.buf = s.buf.purgeMem ci ct := by
   have hp := h.inv.purgeMem ct hci
   have hmem' : (s.buf.purgeMem ci ct).mem = s.buf.mem.filter (fun e => decide (ci < e.index)) := by
@@ -660,8 +726,10 @@ theorem core_after_purge {s : Sys} {hist : List (List Entry)} (h : StoreOk s his
     have := lastIdx_max_of_sorted hsm' this
     omega
   simp only [Sys.handleCmd, Sys.stPurge, Img.purge, h.file, Option.map_none]
-  refine ⟨?_, by simp, by simp, by simp [h.timer], ?_, by simp⟩
-  · refine { file := by simp, alive := h.alive, inv := hp.1, vol := ?_, dTop := ?_, pTop := ?_,
+  refine ⟨?_, by simp, by simp, ?_, by simp⟩
+  have hpt' : (s.buf.purgeMem ci ct).purgedT = ct := by
+    have := congrArg Plain.anchorT hp.2.1; simpa [Buf.abs, Plain.purge] using this
+  · refine { file := by simp, kb := h.kb, bnd := by simp [BndOk, h.kb, hpi', hpt'], dImg := h.dImg, alive := h.alive, inv := hp.1, vol := ?_, dTop := ?_, pTop := ?_,
              dHist := List.mem_cons_of_mem _ h.dHist, dDur := ?_, memHist := by simp, histOk := ?_ }
     · refine ⟨h.vol.sorted.filter _, ?_, ?_⟩
       · intro e he
@@ -717,12 +785,12 @@ theorem core_after_purge {s : Sys} {hist : List (List Entry)} (h : StoreOk s his
 
 theorem core_after_reset {s : Sys} {hist : List (List Entry)} (h : StoreOk s hist) :
     let s2 := ({ s with buf := s.buf.resetMem, queue := [] } : Sys).handleCmd .reset
-    Core s2 (s2.buf.mem :: hist) ∧ s2.queue = [] ∧ s2.notify = s.notify ∧ s2.timerDue = false ∧
+    Core s2 (s2.buf.mem :: hist) ∧ s2.queue = [] ∧ s2.notify = s.notify ∧
     (∀ e ∈ s2.buf.mem, e ∈ s2.store.v.ents) ∧ s2.buf = s.buf.resetMem := by
   have hr := h.inv.resetMem
   simp only [Sys.handleCmd, Sys.stReset, Img.reset, h.file, Option.map_none]
-  refine ⟨?_, by simp, by simp, by simp [h.timer], by simp [Buf.resetMem], by simp⟩
-  exact { file := by simp, alive := h.alive, inv := hr.1,
+  refine ⟨?_, by simp, by simp, by simp [Buf.resetMem], by simp⟩
+  exact { file := by simp, kb := h.kb, bnd := h.bnd, dImg := h.dImg, alive := h.alive, inv := hr.1,
           vol := ⟨Sorted.nil, by simp, by simp [Buf.resetMem]⟩,
           dTop := by simp [Buf.resetMem], pTop := by simp,
           dHist := List.mem_cons_of_mem _ h.dHist, dDur := by simp [Buf.resetMem], memHist := by simp,
@@ -735,20 +803,22 @@ end DEngine.BufLog
 
 namespace DEngine.BufLog
 
-/-! ### one operation, default schedule -/
+/-! ### one operation, any arm order -/
 
-/-- the default schedule: command arm first, then notify, then timer; no tick forced while an operation waits -/
-def Sched.plain (sch : Sched) : Bool := sch.prio == defaultPrio && !sch.clock
-
-def Op.plainSched : Op → Bool
-  | .fca _ _ _ s => s.plain
-  | .purge _ _ s => s.plain
-  | .reset s => s.plain
-  | .flush s => s.plain
-  | .io s => s.prio == defaultPrio
+def Op.validSched : Op → Bool
+  | .fca _ _ _ s => s.valid
+  | .purge _ _ s => s.valid
+  | .reset s => s.valid
+  | .flush s => s.valid
+  | .io s => s.valid
   | .close _ => false
   | .crash _ => false
   | _ => true
+
+theorem valid_parts {sch : Sched} (h : sch.valid = true) :
+    sch.prio.contains .cmd = true ∧ sch.prio.contains .notify = true ∧ sch.prio.contains .timer = true := by
+  simp only [Sched.valid, Bool.and_eq_true] at h
+  exact ⟨h.1.1, h.1.2, h.2⟩
 
 theorem StoreOk.shrink {s : Sys} {hist : List (List Entry)} {x : List Entry} (hx : x ∈ hist)
     (h : StoreOk s (x :: hist)) : StoreOk s hist :=
@@ -756,7 +826,7 @@ theorem StoreOk.shrink {s : Sys} {hist : List (List Entry)} {x : List Entry} (hx
     rcases List.mem_cons.mp hy with rfl | hy
     · exact hx
     · exact hy
-  { file := h.file, queue := h.queue, timer := h.timer, alive := h.alive, inv := h.inv, vol := h.vol, full := h.full,
+  { file := h.file, kb := h.kb, bnd := h.bnd, dImg := h.dImg, queue := h.queue, alive := h.alive, inv := h.inv, vol := h.vol, full := h.full,
     closed := h.closed, dTop := h.dTop, pTop := h.pTop, dHist := sub _ h.dHist, dDur := h.dDur,
     memHist := sub _ h.memHist, histOk := fun y hy => h.histOk y (List.mem_cons_of_mem _ hy) }
 
@@ -765,187 +835,333 @@ theorem StoreOk.sameBuf_mem {s : Sys} {b : Buf} (h : SameBuf b s.buf) : s.buf.me
   obtain ⟨d, n, hd⟩ := h
   rw [hd]; exact ⟨rfl, rfl, rfl⟩
 
-theorem ioRun_cmd_first (s : Sys) (c : IOCmd) (rest : List IOCmd) (hq : s.queue = c :: rest) (ha : s.alive = true) :
-    s.ioRun defaultPrio = Sys.ioRunN 7 (s.ioArm .cmd) defaultPrio := by
-  simp [Sys.ioRun, Sys.ioRunN, Sys.pickArm, defaultPrio, Sys.armEnabled, hq, ha]
+/-- the timer flag is no part of the invariant -/
+theorem StoreOk.withTimer {s : Sys} {hist : List (List Entry)} (h : StoreOk s hist) (x : Bool) :
+    StoreOk { s with timerDue := x } hist :=
+  { file := h.file, kb := h.kb, bnd := h.bnd, dImg := h.dImg, queue := h.queue, alive := h.alive, inv := h.inv, vol := h.vol, full := h.full,
+    closed := h.closed, dTop := h.dTop, pTop := h.pTop, dHist := h.dHist, dDur := h.dDur, memHist := h.memHist,
+    histOk := h.histOk }
 
-theorem plain_eq {sch : Sched} (h : sch.plain = true) : sch.prio = defaultPrio ∧ sch.clock = false := by
-  simp only [Sched.plain, Bool.and_eq_true, beq_iff_eq, Bool.not_eq_true'] at h
-  exact h
+theorem StoreOk.preClock {s : Sys} {hist : List (List Entry)} (h : StoreOk s hist) (sch : Sched) :
+    StoreOk (preClock s sch) hist ∧ (preClock s sch).buf = s.buf := by
+  unfold DEngine.BufLog.preClock
+  split
+  · exact ⟨h.withTimer true, rfl⟩
+  · exact ⟨h, rfl⟩
 
-/-- the common tail of the operations that wait: after the command arm, finish the IO run -/
-theorem blocking_finish {s1 s2 : Sys} {hist : List (List Entry)} {c : IOCmd} (hq1 : s1.queue = [c]) (ha : s1.alive = true)
-    (harm : s1.ioArm .cmd = s2) (hc : Core s2 hist) (hq : s2.queue = [])
-    (hfull : s2.notify = false → s2.timerDue = false → ∀ e ∈ s2.buf.mem, e ∈ s2.store.v.ents) :
-    StoreOk (s1.ioRun defaultPrio) hist ∧ SameBuf s2.buf (s1.ioRun defaultPrio).buf := by
-  rw [ioRun_cmd_first s1 c [] hq1 ha, harm]
-  exact finish_ok 5 hc hq hfull
+theorem StoreOk.bounce {s : Sys} {hist : List (List Entry)} (h : StoreOk s hist) (a : Arm) :
+    StoreOk (s.bounce a) hist ∧ (s.bounce a).buf = s.buf ∧ (s.bounce a).notify = s.notify := by
+  cases a
+  · exact ⟨h, rfl, rfl⟩
+  · exact ⟨h, rfl, rfl⟩
+  · exact ⟨h.withTimer false, rfl, rfl⟩
 
-theorem execOp_storeOk_fca {s : Sys} {hist : List (List Entry)} (h : StoreOk s hist) (hnil : [] ∈ hist)
+theorem flag_count_le (s : Sys) : (if s.notify then 1 else 0) + (if s.timerDue then 1 else 0) ≤ 7 := by
+  cases s.notify <;> cases s.timerDue <;> simp
+
+/-- polling the IO loop when no command is queued -/
+theorem quiescent_run {s : Sys} {hist : List (List Entry)} (h : StoreOk s hist) {prio : List Arm}
+    (hv : prio.contains .notify = true ∧ prio.contains .timer = true) :
+    StoreOk (s.ioRun prio) hist ∧ SameBuf s.buf (s.ioRun prio).buf := by
+  have := finish_ok hv 8 s h.core h.queue (Nat.le_trans (flag_count_le s) (by omega)) (fun hn _ => h.full hn)
+  exact this
+
+theorem StoreOk.postClock {s : Sys} {hist : List (List Entry)} (h : StoreOk s hist) {sch : Sched} (hv : sch.valid = true) :
+    StoreOk (postClock s sch) hist ∧ SameBuf s.buf (postClock s sch).buf := by
+  unfold DEngine.BufLog.postClock
+  split
+  · exact quiescent_run h (valid_parts hv).2
+  · exact ⟨h, SameBuf.refl _⟩
+
+/-- polling the IO loop while one command is queued: whatever arm `select!` picks, the command arm is the first to
+    do anything; then the rest of the run -/
+theorem blocking_run {s1 : Sys} {hist : List (List Entry)} {c : IOCmd} {prio : List Arm} (hq1 : s1.queue = [c])
+    (ha : s1.alive = true)
+    (hv : prio.contains .cmd = true ∧ prio.contains .notify = true ∧ prio.contains .timer = true)
+    (hcore : ∀ a : Arm, Core ((s1.bounce a).ioArm .cmd) hist ∧ ((s1.bounce a).ioArm .cmd).queue = [] ∧
+      (((s1.bounce a).ioArm .cmd).notify = false → ∀ e ∈ ((s1.bounce a).ioArm .cmd).buf.mem,
+        e ∈ ((s1.bounce a).ioArm .cmd).store.v.ents)) :
+    ∃ a : Arm, StoreOk (s1.ioRun prio) hist ∧ SameBuf ((s1.bounce a).ioArm .cmd).buf (s1.ioRun prio).buf := by
+  have hcmd : s1.armEnabled .cmd = true := by simp [Sys.armEnabled, ha, hq1]
+  cases hp : s1.pickArm prio with
+  | none =>
+    have := pickArm_none_disabled hp .cmd (by simpa using hv.1)
+    rw [hcmd] at this; cases this
+  | some a =>
+    refine ⟨a, ?_⟩
+    have hstep : s1.ioRun prio = Sys.ioRunN 7 ((s1.bounce a).ioArm .cmd) prio := by
+      simp only [Sys.ioRun, Sys.ioRunN, hp]
+      by_cases hac : a = .cmd
+      · subst hac
+        have hb : s1.bounce .cmd = s1 := rfl
+        rw [hb]; simp
+      · have : a ≠ .cmd ∧ s1.queue ≠ [] := ⟨hac, by rw [hq1]; simp⟩
+        simp [this]
+    rw [hstep]
+    obtain ⟨hc2, hq2, hf2⟩ := hcore a
+    exact finish_ok hv.2 7 _ hc2 hq2 (flag_count_le _) (fun hn _ => hf2 hn)
+
+theorem bounce_with (s : Sys) (a : Arm) (b : Buf) (q : List IOCmd) :
+    ({ s with buf := b, queue := q } : Sys).bounce a = { s.bounce a with buf := b, queue := q } := by
+  cases a <;> rfl
+
+theorem execOp_storeOk_fca {s : Sys} {hist : List (List Entry)} (h0 : StoreOk s hist) (hnil : [] ∈ hist)
     {prevI prevT : Nat} {es : List Entry} {sch : Sched}
-    (hwf : wfOp s.buf.abs (.fca prevI prevT es sch) = true) (hplain : sch.plain = true) :
+    (hwf : wfOp s.buf.abs (.fca prevI prevT es sch) = true) (hvalid : sch.valid = true) :
     StoreOk (execOp s (.fca prevI prevT es sch)).1 ((execOp s (.fca prevI prevT es sch)).1.buf.mem :: hist) := by
-  obtain ⟨hprio, hclock⟩ := plain_eq hplain
-  simp only [execOp, preClock, postClock, hclock, Bool.false_eq_true, if_false, hprio]
+  have hv := valid_parts hvalid
+  simp only [execOp]
+  obtain ⟨h, hb0⟩ := h0.preClock sch
+  rw [← hb0] at hwf
+  generalize DEngine.BufLog.preClock s sch = s at h hb0 hwf ⊢
+  clear hb0
   by_cases hr : prevI = 0 ∧ prevT = 0
   · have hdec : fcaDecide s.buf prevI prevT es = (.reset, "fca-reset") := by simp [fcaDecide, hr]
     rw [hdec]
     simp only [wfOp, hr, and_self, if_true, Bool.and_eq_true] at hwf
-    have hcr := core_after_reset h
-    simp only at hcr
-    obtain ⟨hc2, hq2, hn2, ht2, hf2, hb2⟩ := hcr
     have henq : s.resetMain = some { s with buf := s.buf.resetMem, queue := [.reset] } := by
       simp [Sys.resetMain, Sys.enqueue, h.alive, h.queue]
     simp only [henq]
-    have hfin := blocking_finish (s1 := { s with buf := s.buf.resetMem, queue := [.reset] }) (c := .reset) rfl h.alive
-      (by simp [Sys.ioArm]) hc2 hq2 (fun _ _ => hf2)
-    generalize ({ s with buf := s.buf.resetMem, queue := [.reset] } : Sys).ioRun defaultPrio = s3 at hfin ⊢
-    obtain ⟨hs3, hsb3⟩ := hfin
-    rw [hb2] at hsb3
-    obtain ⟨hm3, hp3, hsg3⟩ := StoreOk.sameBuf_mem hsb3
-    have hmem2 : (({ s with buf := s.buf.resetMem, queue := [] } : Sys).handleCmd .reset).buf.mem = [] := by rw [hb2]; rfl
-    rw [hmem2] at hs3
+    obtain ⟨a, hs3, hsb3⟩ := blocking_run (s1 := { s with buf := s.buf.resetMem, queue := [.reset] }) (c := .reset)
+      (hist := [] :: hist) rfl h.alive hv (by
+        intro a
+        obtain ⟨hba, _, _⟩ := h.bounce a
+        have hcr := core_after_reset hba
+        simp only at hcr
+        rw [bounce_with]
+        have harm : ({ s.bounce a with buf := s.buf.resetMem, queue := [IOCmd.reset] } : Sys).ioArm .cmd =
+            ({ s.bounce a with buf := (s.bounce a).buf.resetMem, queue := [] } : Sys).handleCmd .reset := by
+          have : (s.bounce a).buf = s.buf := (h.bounce a).2.1
+          simp [Sys.ioArm, this]
+        rw [harm]
+        obtain ⟨hc2, hq2, _, hf2, hb2⟩ := hcr
+        have hm2 : (({ s.bounce a with buf := (s.bounce a).buf.resetMem, queue := [] } : Sys).handleCmd .reset).buf.mem = [] := by
+          rw [hb2]; rfl
+        rw [hm2] at hc2
+        exact ⟨hc2, hq2, fun _ => hf2⟩)
+    generalize ({ s with buf := s.buf.resetMem, queue := [.reset] } : Sys).ioRun sch.prio = s3 at hs3 hsb3 ⊢
     have hs3' : StoreOk s3 hist := hs3.shrink hnil
+    -- the buffer after the command arm is the reset buffer
+    have hbuf : ∃ b2 : Buf, SameBuf b2 s3.buf ∧ b2.mem = [] ∧ b2.purgedI = s.buf.purgedI := by
+      refine ⟨_, hsb3, ?_, ?_⟩
+      · rw [bounce_with]
+        have : (s.bounce a).buf = s.buf := (h.bounce a).2.1
+        have hf := Sys.handleCmd_frame ({ s.bounce a with buf := s.buf.resetMem, queue := [] } : Sys) .reset
+        have : ({ s.bounce a with buf := s.buf.resetMem, queue := [IOCmd.reset] } : Sys).ioArm .cmd =
+            ({ s.bounce a with buf := s.buf.resetMem, queue := [] } : Sys).handleCmd .reset := by simp [Sys.ioArm]
+        rw [this]
+        exact (StoreOk.sameBuf_mem hf.1).1
+      · rw [bounce_with]
+        have hf := Sys.handleCmd_frame ({ s.bounce a with buf := s.buf.resetMem, queue := [] } : Sys) .reset
+        have : ({ s.bounce a with buf := s.buf.resetMem, queue := [IOCmd.reset] } : Sys).ioArm .cmd =
+            ({ s.bounce a with buf := s.buf.resetMem, queue := [] } : Sys).handleCmd .reset := by simp [Sys.ioArm]
+        rw [this]
+        exact (StoreOk.sameBuf_mem hf.1).2.1
+    obtain ⟨b2, hsb, hm2, hp2⟩ := hbuf
+    obtain ⟨hm3, hp3, _⟩ := StoreOk.sameBuf_mem hsb
     by_cases hes : es = []
     · subst hes
       have : s3.append [] = s3 := by simp [Sys.append]
       rw [this]
-      exact hs3'.mono _ (contig_hist_of_inv hs3'.inv)
-    · refine hs3'.appendTail hes hwf.2 ⟨s.buf.purgedI + 1, by simpa [Buf.abs] using hwf.1, ?_, ?_, ?_⟩
-      · rw [hm3]; simp [Buf.resetMem]
-      · rw [hm3]; simp [Buf.resetMem]
-      · intro _; rw [hp3]; simp [Buf.resetMem]
+      obtain ⟨hpo, hsbp⟩ := hs3'.postClock hvalid
+      rw [(StoreOk.sameBuf_mem hsbp).1]
+      exact hpo.mono _ (contig_hist_of_inv hs3'.inv)
+    · have hat := hs3'.appendTail hes hwf.2 ⟨s.buf.purgedI + 1, by simpa [Buf.abs] using hwf.1,
+        by rw [hm3, hm2]; simp, by rw [hm3, hm2]; simp, fun _ => by rw [hp3, hp2]⟩
+      obtain ⟨hpo, hsbp⟩ := hat.postClock hvalid
+      rw [(StoreOk.sameBuf_mem hsbp).1]
+      exact hpo
   · simp only [wfOp, hr, if_false, Bool.and_eq_true] at hwf
     have hspec := h.inv.fcaDecide_spec (prevI := prevI) (prevT := prevT) (es := es) hwf.1.1 hwf.1.2 hwf.2 hr
     generalize hdec : fcaDecide s.buf prevI prevT es = dec at hspec ⊢
     obtain ⟨plan, tag⟩ := dec
     cases plan with
     | reset => exact absurd hspec hr
-    | mismatch => exact h.mono _ (contig_hist_of_inv h.inv)
-    | noop => exact h.mono _ (contig_hist_of_inv h.inv)
+    | mismatch =>
+      obtain ⟨hpo, hsbp⟩ := h.postClock hvalid
+      simp only
+      rw [(StoreOk.sameBuf_mem hsbp).1]
+      exact hpo.mono _ (contig_hist_of_inv h.inv)
+    | noop =>
+      obtain ⟨hpo, hsbp⟩ := h.postClock hvalid
+      simp only
+      rw [(StoreOk.sameBuf_mem hsbp).1]
+      exact hpo.mono _ (contig_hist_of_inv h.inv)
     | appendTail tail =>
       simp only [FcaSpec] at hspec
       obtain ⟨hne, hlen, _, hpos, hk, _⟩ := hspec
-      exact h.appendTail hne hpos hk
+      obtain ⟨hpo, hsbp⟩ := (h.appendTail hne hpos hk).postClock hvalid
+      simp only
+      rw [(StoreOk.sameBuf_mem hsbp).1]
+      exact hpo
     | replace d tail =>
       simp only [FcaSpec] at hspec
       obtain ⟨htne, hlen, _, hpos, hd1, hd2, hne, hc, _⟩ := hspec
-      have hcr := core_after_replace h htne hd1 hd2 hne hc hpos
-      simp only at hcr
-      obtain ⟨hc2, hq2, hn2, ht2, hf2, hb2⟩ := hcr
       have henq : ({ s with buf := s.buf.replaceMem d tail } : Sys).enqueue (.replace d tail) =
           some { s with buf := s.buf.replaceMem d tail, queue := [.replace d tail] } := by
         simp [Sys.enqueue, h.alive, h.queue]
       simp only [henq]
-      have hfin := blocking_finish (s1 := { s with buf := s.buf.replaceMem d tail, queue := [.replace d tail] })
-        (c := .replace d tail) rfl h.alive (by simp [Sys.ioArm]) hc2 hq2
-        (fun hn _ => hf2 (by rw [← hn2]; exact hn))
-      generalize ({ s with buf := s.buf.replaceMem d tail, queue := [.replace d tail] } : Sys).ioRun defaultPrio = s3 at hfin ⊢
-      obtain ⟨hs3, hsb3⟩ := hfin
-      obtain ⟨hm3, _, _⟩ := StoreOk.sameBuf_mem hsb3
-      rw [hm3]
-      exact hs3
+      have harm : ∀ a : Arm, (({ s with buf := s.buf.replaceMem d tail, queue := [.replace d tail] } : Sys).bounce a).ioArm .cmd =
+          ({ s.bounce a with buf := (s.bounce a).buf.replaceMem d tail, queue := [] } : Sys).handleCmd (.replace d tail) := by
+        intro a
+        rw [bounce_with]
+        have : (s.bounce a).buf = s.buf := (h.bounce a).2.1
+        simp [Sys.ioArm, this]
+      obtain ⟨a, hs3, hsb3⟩ := blocking_run (s1 := { s with buf := s.buf.replaceMem d tail, queue := [.replace d tail] })
+        (c := .replace d tail) (hist := (s.buf.replaceMem d tail).mem :: hist) rfl h.alive hv (by
+          intro a
+          obtain ⟨hba, hbb, hbn⟩ := h.bounce a
+          have hcr := core_after_replace hba htne (by rw [hbb]; exact hd1) (by rw [hbb]; exact hd2) (by rw [hbb]; exact hne) hc hpos
+          simp only at hcr
+          rw [harm a]
+          obtain ⟨hc2, hq2, hn2, hf2, hb2⟩ := hcr
+          have hmem := congrArg Buf.mem hb2
+          have e : ((s.bounce a).buf.replaceMem d tail).mem = (s.buf.replaceMem d tail).mem := by rw [hbb]
+          rw [hmem, e] at hc2
+          exact ⟨hc2, hq2, fun hn => hf2 (by rw [hn2] at hn; exact hn)⟩)
+      obtain ⟨hpo, hsbp⟩ := hs3.postClock hvalid
+      have hb2 : ((({ s with buf := s.buf.replaceMem d tail, queue := [.replace d tail] } : Sys).bounce a).ioArm .cmd).buf =
+          s.buf.replaceMem d tail := by
+        obtain ⟨hba, hbb, _⟩ := h.bounce a
+        have hcr := core_after_replace hba htne (by rw [hbb]; exact hd1) (by rw [hbb]; exact hd2) (by rw [hbb]; exact hne) hc hpos
+        simp only at hcr
+        rw [harm a, hcr.2.2.2.2, hbb]
+      rw [(StoreOk.sameBuf_mem hsbp).1, (StoreOk.sameBuf_mem hsb3).1, hb2]
+      exact hpo
 
-end DEngine.BufLog
-
-namespace DEngine.BufLog
-
-theorem execOp_storeOk_purge {s : Sys} {hist : List (List Entry)} (h : StoreOk s hist) {ci ct : Nat} {sch : Sched}
-    (hwf : wfOp s.buf.abs (.purge ci ct sch) = true) (hplain : sch.plain = true) :
+theorem execOp_storeOk_purge {s : Sys} {hist : List (List Entry)} (h0 : StoreOk s hist) {ci ct : Nat} {sch : Sched}
+    (hwf : wfOp s.buf.abs (.purge ci ct sch) = true) (hvalid : sch.valid = true) :
     StoreOk (execOp s (.purge ci ct sch)).1 ((execOp s (.purge ci ct sch)).1.buf.mem :: hist) := by
-  obtain ⟨hprio, hclock⟩ := plain_eq hplain
-  simp only [execOp, preClock, postClock, hclock, Bool.false_eq_true, if_false, hprio]
+  have hv := valid_parts hvalid
+  simp only [execOp]
+  obtain ⟨h, hb0⟩ := h0.preClock sch
+  rw [← hb0] at hwf
+  generalize DEngine.BufLog.preClock s sch = s at h hb0 hwf ⊢
+  clear hb0
   have hci : s.buf.purgedI ≤ ci := by
     simp only [wfOp, decide_eq_true_eq] at hwf; exact hwf
-  have hcr := core_after_purge h ct hci
-  simp only at hcr
-  obtain ⟨hc2, hq2, hn2, ht2, hf2, hb2⟩ := hcr
   have henq : s.purgeMain ci ct = some { s with buf := s.buf.purgeMem ci ct, queue := [.purge ci ct] } := by
     simp [Sys.purgeMain, Sys.enqueue, h.alive, h.queue]
   simp only [henq]
-  have hfin := blocking_finish (s1 := { s with buf := s.buf.purgeMem ci ct, queue := [.purge ci ct] })
-    (c := .purge ci ct) rfl h.alive (by simp [Sys.ioArm]) hc2 hq2 (fun hn _ => hf2 (by rw [← hn2]; exact hn))
-  generalize ({ s with buf := s.buf.purgeMem ci ct, queue := [.purge ci ct] } : Sys).ioRun defaultPrio = s3 at hfin ⊢
-  obtain ⟨hs3, hsb3⟩ := hfin
-  obtain ⟨hm3, _, _⟩ := StoreOk.sameBuf_mem hsb3
-  rw [hm3]
-  exact hs3
+  have harm : ∀ a : Arm, (({ s with buf := s.buf.purgeMem ci ct, queue := [.purge ci ct] } : Sys).bounce a).ioArm .cmd =
+      ({ s.bounce a with buf := (s.bounce a).buf.purgeMem ci ct, queue := [] } : Sys).handleCmd (.purge ci ct) := by
+    intro a
+    rw [bounce_with]
+    have : (s.bounce a).buf = s.buf := (h.bounce a).2.1
+    simp [Sys.ioArm, this]
+  have hcra : ∀ a : Arm, _ := fun a => core_after_purge (h.bounce a).1 ct (by rw [(h.bounce a).2.1]; exact hci)
+  obtain ⟨a, hs3, hsb3⟩ := blocking_run (s1 := { s with buf := s.buf.purgeMem ci ct, queue := [.purge ci ct] })
+    (c := .purge ci ct) (hist := (s.buf.purgeMem ci ct).mem :: hist) rfl h.alive hv (by
+      intro a
+      have hcr := hcra a
+      simp only at hcr
+      rw [harm a]
+      obtain ⟨hc2, hq2, hn2, hf2, hb2⟩ := hcr
+      have hmem := congrArg Buf.mem hb2
+      have e : ((s.bounce a).buf.purgeMem ci ct).mem = (s.buf.purgeMem ci ct).mem := by rw [(h.bounce a).2.1]
+      rw [hmem, e] at hc2
+      exact ⟨hc2, hq2, fun hn => hf2 (by rw [hn2] at hn; exact hn)⟩)
+  obtain ⟨hpo, hsbp⟩ := hs3.postClock hvalid
+  have hb2 : ((({ s with buf := s.buf.purgeMem ci ct, queue := [.purge ci ct] } : Sys).bounce a).ioArm .cmd).buf =
+      s.buf.purgeMem ci ct := by
+    have hcr := hcra a
+    simp only at hcr
+    rw [harm a, hcr.2.2.2.2, (h.bounce a).2.1]
+  rw [(StoreOk.sameBuf_mem hsbp).1, (StoreOk.sameBuf_mem hsb3).1, hb2]
+  exact hpo
 
-theorem execOp_storeOk_reset {s : Sys} {hist : List (List Entry)} (h : StoreOk s hist) {sch : Sched}
-    (hplain : sch.plain = true) :
+theorem execOp_storeOk_reset {s : Sys} {hist : List (List Entry)} (h0 : StoreOk s hist) {sch : Sched}
+    (hvalid : sch.valid = true) :
     StoreOk (execOp s (.reset sch)).1 ((execOp s (.reset sch)).1.buf.mem :: hist) := by
-  obtain ⟨hprio, hclock⟩ := plain_eq hplain
-  simp only [execOp, preClock, postClock, hclock, Bool.false_eq_true, if_false, hprio]
-  have hcr := core_after_reset h
-  simp only at hcr
-  obtain ⟨hc2, hq2, hn2, ht2, hf2, hb2⟩ := hcr
+  have hv := valid_parts hvalid
+  simp only [execOp]
+  obtain ⟨h, _⟩ := h0.preClock sch
+  generalize DEngine.BufLog.preClock s sch = s at h ⊢
   have henq : s.resetMain = some { s with buf := s.buf.resetMem, queue := [.reset] } := by
     simp [Sys.resetMain, Sys.enqueue, h.alive, h.queue]
   simp only [henq]
-  have hfin := blocking_finish (s1 := { s with buf := s.buf.resetMem, queue := [.reset] }) (c := .reset) rfl h.alive
-    (by simp [Sys.ioArm]) hc2 hq2 (fun _ _ => hf2)
-  generalize ({ s with buf := s.buf.resetMem, queue := [.reset] } : Sys).ioRun defaultPrio = s3 at hfin ⊢
-  obtain ⟨hs3, hsb3⟩ := hfin
-  obtain ⟨hm3, _, _⟩ := StoreOk.sameBuf_mem hsb3
-  rw [hm3]
-  exact hs3
+  have harm : ∀ a : Arm, (({ s with buf := s.buf.resetMem, queue := [.reset] } : Sys).bounce a).ioArm .cmd =
+      ({ s.bounce a with buf := (s.bounce a).buf.resetMem, queue := [] } : Sys).handleCmd .reset := by
+    intro a
+    rw [bounce_with]
+    have : (s.bounce a).buf = s.buf := (h.bounce a).2.1
+    simp [Sys.ioArm, this]
+  have hcra : ∀ a : Arm, _ := fun a => core_after_reset (h.bounce a).1
+  obtain ⟨a, hs3, hsb3⟩ := blocking_run (s1 := { s with buf := s.buf.resetMem, queue := [.reset] })
+    (c := .reset) (hist := s.buf.resetMem.mem :: hist) rfl h.alive hv (by
+      intro a
+      have hcr := hcra a
+      simp only at hcr
+      rw [harm a]
+      obtain ⟨hc2, hq2, _, hf2, hb2⟩ := hcr
+      have hmem := congrArg Buf.mem hb2
+      have e : (s.bounce a).buf.resetMem.mem = s.buf.resetMem.mem := by rw [(h.bounce a).2.1]
+      rw [hmem, e] at hc2
+      exact ⟨hc2, hq2, fun _ => hf2⟩)
+  obtain ⟨hpo, hsbp⟩ := hs3.postClock hvalid
+  have hb2 : ((({ s with buf := s.buf.resetMem, queue := [.reset] } : Sys).bounce a).ioArm .cmd).buf = s.buf.resetMem := by
+    have hcr := hcra a
+    simp only at hcr
+    rw [harm a, hcr.2.2.2.2, (h.bounce a).2.1]
+  rw [(StoreOk.sameBuf_mem hsbp).1, (StoreOk.sameBuf_mem hsb3).1, hb2]
+  exact hpo
 
-theorem execOp_storeOk_flush {s : Sys} {hist : List (List Entry)} (h : StoreOk s hist) {sch : Sched}
-    (hplain : sch.plain = true) :
+theorem execOp_storeOk_flush {s : Sys} {hist : List (List Entry)} (h0 : StoreOk s hist) {sch : Sched}
+    (hvalid : sch.valid = true) :
     StoreOk (execOp s (.flush sch)).1 ((execOp s (.flush sch)).1.buf.mem :: hist) := by
-  obtain ⟨hprio, hclock⟩ := plain_eq hplain
-  simp only [execOp, preClock, postClock, hclock, Bool.false_eq_true, if_false, hprio]
+  have hv := valid_parts hvalid
+  simp only [execOp]
+  obtain ⟨h, _⟩ := h0.preClock sch
+  generalize DEngine.BufLog.preClock s sch = s at h ⊢
   unfold Sys.flushMain
-  by_cases h0 : s.buf.maxIdx = 0
-  · simp only [h0, if_true]; exact h.mono _ (contig_hist_of_inv h.inv)
-  · simp only [h0, if_false]
+  have quiet : StoreOk (postClock s sch) ((postClock s sch).buf.mem :: hist) := by
+    obtain ⟨hpo, hsbp⟩ := h.postClock hvalid
+    rw [(StoreOk.sameBuf_mem hsbp).1]
+    exact hpo.mono _ (contig_hist_of_inv h.inv)
+  by_cases h0' : s.buf.maxIdx = 0
+  · simp only [h0', if_true]; exact quiet
+  · simp only [h0', if_false]
     by_cases h1 : s.buf.maxIdx ≤ s.buf.durable
-    · simp only [h1, if_true]; exact h.mono _ (contig_hist_of_inv h.inv)
+    · simp only [h1, if_true]; exact quiet
     · simp only [h1, if_false]
       have henq : s.enqueue .flush = some { s with queue := [.flush] } := by simp [Sys.enqueue, h.alive, h.queue]
       simp only [henq, Option.map_some]
-      have hc0 : Core { s with queue := [] } (s.buf.mem :: hist) := by
-        have hc := h.core.mono _ (contig_hist_of_inv h.inv) (Or.inl rfl)
-        exact { file := hc.file, alive := hc.alive, inv := hc.inv, vol := hc.vol, dTop := hc.dTop, pTop := hc.pTop,
-                dHist := hc.dHist, dDur := hc.dDur, memHist := hc.memHist, histOk := hc.histOk }
-      obtain ⟨hc2, hf2, _, hsb2, _, hq2, _, _⟩ := hc0.pf
-      have hfin := blocking_finish (s1 := { s with queue := [.flush] }) (c := .flush) rfl h.alive
-        (ioArm_cmd_flush _ rfl) hc2 (by rw [hq2]) (fun _ _ => hf2)
-      generalize ({ s with queue := [.flush] } : Sys).ioRun defaultPrio = s3 at hfin ⊢
-      obtain ⟨hs3, hsb3⟩ := hfin
-      obtain ⟨hm3, _, _⟩ := StoreOk.sameBuf_mem (hsb2.trans hsb3)
-      rw [hm3]
-      exact hs3
+      have harm : ∀ a : Arm, (({ s with queue := [.flush] } : Sys).bounce a).ioArm .cmd = ({ s.bounce a with queue := [] } : Sys).pf := by
+        intro a
+        have : ({ s with queue := [.flush] } : Sys).bounce a = { s.bounce a with queue := [.flush] } := by cases a <;> rfl
+        rw [this]
+        exact ioArm_cmd_flush _ rfl
+      have hpfa : ∀ a : Arm, _ := fun a =>
+        (show Core ({ s.bounce a with queue := [] } : Sys) (s.buf.mem :: hist) from by
+          have hc := (h.bounce a).1.core.mono s.buf.mem (contig_hist_of_inv h.inv) (Or.inl (by rw [(h.bounce a).2.1]))
+          exact { file := hc.file, kb := hc.kb, bnd := hc.bnd, dImg := hc.dImg, alive := hc.alive, inv := hc.inv, vol := hc.vol, dTop := hc.dTop, pTop := hc.pTop,
+                  dHist := hc.dHist, dDur := hc.dDur, memHist := hc.memHist, histOk := hc.histOk }).pf
+      obtain ⟨a, hs3, hsb3⟩ := blocking_run (s1 := { s with queue := [.flush] }) (c := .flush)
+        (hist := s.buf.mem :: hist) rfl h.alive hv (by
+          intro a
+          rw [harm a]
+          obtain ⟨hc2, hf2, _, _, _, hq2, _, _⟩ := hpfa a
+          exact ⟨hc2, by rw [hq2], fun _ => hf2⟩)
+      obtain ⟨hpo, hsbp⟩ := hs3.postClock hvalid
+      have hm2 : ((({ s with queue := [.flush] } : Sys).bounce a).ioArm .cmd).buf.mem = s.buf.mem := by
+        rw [harm a]
+        obtain ⟨_, _, _, _, hm, _, _, _⟩ := hpfa a
+        rw [hm]; show (s.bounce a).buf.mem = _; rw [(h.bounce a).2.1]
+      rw [(StoreOk.sameBuf_mem hsbp).1, (StoreOk.sameBuf_mem hsb3).1, hm2]
+      exact hpo
 
-theorem execOp_storeOk_io {s : Sys} {hist : List (List Entry)} (h : StoreOk s hist) {sch : Sched}
-    (hprio : sch.prio = defaultPrio) :
+theorem execOp_storeOk_io {s : Sys} {hist : List (List Entry)} (h0 : StoreOk s hist) {sch : Sched}
+    (hvalid : sch.valid = true) :
     StoreOk (execOp s (.io sch)).1 ((execOp s (.io sch)).1.buf.mem :: hist) := by
-  simp only [execOp, hprio]
-  have hc1 : Core (preClock s sch) (s.buf.mem :: hist) := by
-    have hc := h.core.mono _ (contig_hist_of_inv h.inv) (Or.inl rfl)
-    unfold preClock
-    split
-    · exact { file := hc.file, alive := hc.alive, inv := hc.inv, vol := hc.vol, dTop := hc.dTop, pTop := hc.pTop,
-              dHist := hc.dHist, dDur := hc.dDur, memHist := hc.memHist, histOk := hc.histOk }
-    · exact hc
-  have hq1 : (preClock s sch).queue = [] := by unfold preClock; split <;> exact h.queue
-  have hfull : (preClock s sch).notify = false → (preClock s sch).timerDue = false →
-      ∀ e ∈ (preClock s sch).buf.mem, e ∈ (preClock s sch).store.v.ents := by
-    unfold preClock; split
-    · intro hn _; exact h.full hn
-    · intro hn _; exact h.full hn
-  have hb1 : (preClock s sch).buf = s.buf := by unfold preClock; split <;> rfl
-  have hfin := finish_ok 6 hc1 hq1 hfull
-  have he : (preClock s sch).ioRun defaultPrio = Sys.ioRunN (6 + 2) (preClock s sch) defaultPrio := rfl
-  rw [he]
-  obtain ⟨hs3, hsb3⟩ := hfin
-  obtain ⟨hm3, _, _⟩ := StoreOk.sameBuf_mem hsb3
-  rw [hm3, hb1]
-  exact hs3
+  simp only [execOp]
+  obtain ⟨h, hb0⟩ := h0.preClock sch
+  obtain ⟨hs3, hsb3⟩ := quiescent_run h (valid_parts hvalid).2
+  rw [(StoreOk.sameBuf_mem hsb3).1]
+  exact hs3.mono _ (contig_hist_of_inv h.inv)
 
-/-- **Preservation of the invariant between operations** (reference store, default schedule). -/
+/-- **Preservation of the invariant between operations** (reference store, every arm order). -/
 theorem execOp_storeOk {s : Sys} {hist : List (List Entry)} (h : StoreOk s hist) (hnil : [] ∈ hist) {op : Op}
-    (hwf : wfOp s.buf.abs op = true) (hplain : op.plainSched = true) :
+    (hwf : wfOp s.buf.abs op = true) (hvalid : op.validSched = true) :
     StoreOk (execOp s op).1 ((execOp s op).1.buf.mem :: hist) := by
   cases op with
   | append es =>
@@ -957,10 +1173,10 @@ theorem execOp_storeOk {s : Sys} {hist : List (List Entry)} (h : StoreOk s hist)
       rw [this]; exact h.mono _ (contig_hist_of_inv h.inv)
     · obtain ⟨h1, h2, h3⟩ := next_hyps h.inv
       exact h.appendTail hes hwf.2 ⟨_, hwf.1, h1, h2, h3⟩
-  | fca prevI prevT es sch => exact execOp_storeOk_fca h hnil hwf hplain
-  | purge ci ct sch => exact execOp_storeOk_purge h hwf hplain
-  | reset sch => exact execOp_storeOk_reset h hplain
-  | flush sch => exact execOp_storeOk_flush h hplain
+  | fca prevI prevT es sch => exact execOp_storeOk_fca h hnil hwf hvalid
+  | purge ci ct sch => exact execOp_storeOk_purge h hwf hvalid
+  | reset sch => exact execOp_storeOk_reset h hvalid
+  | flush sch => exact execOp_storeOk_flush h hvalid
   | alloc n =>
     simp only [execOp, Buf.alloc]
     by_cases hn : n = 0
@@ -970,10 +1186,134 @@ theorem execOp_storeOk {s : Sys} {hist : List (List Entry)} (h : StoreOk s hist)
     · simp only [hn, if_false]
       exact (h.withNextId _).mono _ (contig_hist_of_inv h.inv)
   | get lo hi => simp only [execOp]; exact h.mono _ (contig_hist_of_inv h.inv)
-  | io sch =>
-    simp only [Op.plainSched, beq_iff_eq] at hplain
-    exact execOp_storeOk_io h hplain
-  | close sch => simp [Op.plainSched] at hplain
-  | crash p => simp [Op.plainSched] at hplain
+  | io sch => exact execOp_storeOk_io h hvalid
+  | close sch => simp [Op.validSched] at hvalid
+  | crash p => simp [Op.validSched] at hvalid
+
+end DEngine.BufLog
+
+namespace DEngine.BufLog
+
+/-! ### recovery is the start of a run: `new` over a good image re-establishes the invariant -/
+
+theorem load_fields {g : Img} (h : ImgOk g) :
+    (Buf.load g).mem = g.ents ∧ (Buf.load g).purgedI = g.bndI ∧ (Buf.load g).durable = lastIdx g.ents ∧
+    (Buf.load g).Inv ∧ BndOk (Buf.load g) g := by
+  have hs : Sorted g.ents := sorted_of_contig h.contig
+  have hpos : ∀ e ∈ g.ents, 0 < e.index := by
+    intro e he
+    have hne : g.ents ≠ [] := List.ne_nil_of_mem he
+    have := contigFrom_mem h.contig he
+    have := h.anchor hne
+    omega
+  have hmem := load_mem hs hpos
+  -- what is scanned at startup is the whole image
+  have hloaded : (if g.lastIndex > 0 then rangeE g.ents 1 g.lastIndex else []) = g.ents := by
+    simp only [Img.lastIndex]
+    by_cases hne : g.ents = []
+    · simp [hne, rangeE]
+    · have hlast : 0 < lastIdx g.ents := by
+        obtain ⟨x, hx, hxi⟩ : ∃ x ∈ g.ents, x.index = lastIdx g.ents := by
+          cases hg : g.ents.getLast? with
+          | none => exact absurd (List.getLast?_eq_none_iff.mp hg) hne
+          | some x => exact ⟨x, List.mem_of_getLast? hg, by simp [lastIdx, hg]⟩
+        have := hpos x hx; omega
+      simp only [hlast, if_true]
+      unfold rangeE
+      apply List.filter_eq_self.mpr
+      intro x hx
+      have h1 := hpos x hx
+      have h2 := lastIdx_max_of_sorted hs hx
+      simp [inRange]; omega
+  have hb : BndOk (Buf.load g) g := by
+    unfold BndOk Buf.load
+    cases hbd : g.boundary with
+    | none => simp
+    | some p => simp
+  have hpi : (Buf.load g).purgedI = g.bndI := by
+    unfold Buf.load Img.bndI
+    cases hbd : g.boundary with
+    | none => simp
+    | some p => simp
+  refine ⟨hmem, hpi, by simp [Buf.load, Img.lastIndex], ?_, hb⟩
+  have hidx := exact_append (m := []) (tf := []) (tl := []) (k := firstIdx g.ents) (es := g.ents)
+    (fun _ => rfl) (fun _ => rfl) (by simp) h.contig
+  have hseg := SegInv.onAppend (m := []) (s := {}) (k := firstIdx g.ents) (es := g.ents) SegInv.empty (by simp) (by simp)
+    h.contig (by simp only [termsPos, List.all_eq_true, decide_eq_true_eq]; exact h.pos)
+  simp only [List.nil_append] at hidx hseg
+  refine { contig := by rw [hmem]; exact h.contig, pos := by rw [hmem]; exact h.pos,
+           anchor := by rw [hmem, hpi]; exact h.anchor,
+           minOk := by simp only [Buf.load], maxOk := by simp only [Buf.load], tf := ?_, tl := ?_, seg := ?_ }
+  · rw [hmem]
+    have : (Buf.load g).tfirst = (updTermIdx [] [] g.ents).1 := by simp only [Buf.load, hloaded]
+    rw [this]; exact hidx.1
+  · rw [hmem]
+    have : (Buf.load g).tlast = (updTermIdx [] [] g.ents).2 := by simp only [Buf.load, hloaded]
+    rw [this]; exact hidx.2
+  · rw [hmem]
+    have : (Buf.load g).segs = ({} : Segs).onAppend g.ents := by simp only [Buf.load, hloaded]
+    rw [this]; exact hseg
+
+/-- the volatile copy between operations is a good image -/
+theorem StoreOk.vImg {s : Sys} {hist : List (List Entry)} (h : StoreOk s hist) : ImgOk s.store.v := by
+  obtain ⟨n, hn⟩ := vol_prefix h
+  refine { contig := ?_, anchor := ?_, pos := fun e he => h.inv.pos e (h.vol.sub e he) }
+  · rw [hn]
+    by_cases hne : s.buf.mem.take n = []
+    · simp [hne]
+    · have hn0 : 0 < n := by
+        rcases Nat.eq_zero_or_pos n with h0 | h0
+        · simp [h0] at hne
+        · exact h0
+      rw [firstIdx_take hn0]; exact contigFrom_take h.inv.contig n
+  · intro hne
+    rw [hn] at hne ⊢
+    have hn0 : 0 < n := by
+      rcases Nat.eq_zero_or_pos n with h0 | h0
+      · simp [h0] at hne
+      · exact h0
+    have hm : s.buf.mem ≠ [] := by intro hm; simp [hm] at hne
+    rw [firstIdx_take hn0, h.bnd.bndI]; exact h.inv.anchor hm
+
+/-- **Crash + `new` leads back into the invariant**: recovery is itself the start of a run -/
+theorem StoreOk.reopen {s : Sys} {hist : List (List Entry)} (h : StoreOk s hist) (power : Bool) :
+    StoreOk (s.reopen power) ((s.reopen power).buf.mem :: hist) := by
+  have himg : ImgOk (if power then s.store.d else s.store.v) := by
+    cases power
+    · exact h.vImg
+    · exact h.dImg
+  obtain ⟨hmem, hpi, hdur, hinv, hbnd⟩ := load_fields himg
+  simp only [Sys.reopen, h.file]
+  generalize (if power = true then s.store.d else s.store.v) = img at himg hmem hpi hdur hinv hbnd ⊢
+  have hs : Sorted img.ents := sorted_of_contig himg.contig
+  have hall : ∀ e ∈ (Buf.load img).mem, e ∈ img.ents := by rw [hmem]; exact fun e he => he
+  refine { file := rfl, kb := h.kb, queue := rfl, alive := rfl, inv := hinv, bnd := hbnd, dImg := ?_, vol := ?_,
+           full := fun _ => hall, closed := fun e he _ _ _ => hall e he, dTop := ?_, pTop := by simp,
+           dHist := ?_, dDur := ?_, memHist := by simp, histOk := ?_ }
+  · show ImgOk (if img.lastIndex > 0 then img else s.store.d)
+    split
+    · exact himg
+    · exact h.dImg
+  · exact ⟨hs, by rw [hmem]; exact fun e he => he, fun e he _ => hall e he⟩
+  · show (Buf.load img).durable ≤ (Buf.load img).top
+    rw [hdur]; unfold Buf.top; rw [hmem]; omega
+  · show (if img.lastIndex > 0 then img else s.store.d).ents ∈ (Buf.load img).mem :: hist
+    split
+    · rw [hmem]; simp
+    · exact List.mem_cons_of_mem _ h.dHist
+  · intro e he _
+    show e ∈ (if img.lastIndex > 0 then img else s.store.d).ents
+    have he' : e ∈ img.ents := hall e he
+    have : 0 < img.lastIndex := by
+      have h1 := lastIdx_max_of_sorted hs he'
+      have hne : img.ents ≠ [] := List.ne_nil_of_mem he'
+      have h2 := contigFrom_mem himg.contig he'
+      have h3 := himg.anchor hne
+      simp only [Img.lastIndex]; omega
+    simp only [this, if_true]; exact he'
+  · intro x hx
+    rcases List.mem_cons.mp hx with rfl | hx
+    · exact contig_hist_of_inv hinv
+    · exact h.histOk x hx
 
 end DEngine.BufLog
